@@ -29,6 +29,9 @@ struct ghost_t {
   int last_ext_null;
   unsigned char done[USCXML_MAX_NR_STATES_BYTES]; /* states for which raise_done_event was called during the step */
   int phase, last;      /* ORDER_LOG: 0 nothing yet, 1 exits, 2 transition content, 3 entries; index of the last exit/entry */
+  unsigned char xl[USCXML_MAX_NR_STATES_BYTES], el[USCXML_MAX_NR_STATES_BYTES]; /* ORDER_LOG: states whose onexit / onentry content ran */
+  unsigned char tl[USCXML_MAX_NR_TRANS_BYTES]; /* ORDER_LOG: transitions whose content ran */
+  int last_tsrc;        /* ORDER_LOG: source of the last transition whose content ran */
   int ans_m[D_T + 1];   /* what is_matched answers for transition t during this step (chosen up front, any value) */
   int ans_c[D_T + 1];   /* what is_true answers for the condition text of transition t (one answer per text) */
 } G;
@@ -86,21 +89,42 @@ static int stub_raise_done_event(const uscxml_ctx *ctx, const uscxml_state *stat
   }
   return nondet_err();
 }
-/* ORDER_LOG (corpus/c12_content_order.scxml): <log expr="X<nn>"> in onexit, "E<nn>" in onentry, "T" in transitions */
+/* ORDER_LOG (corpus/c12_content_order.scxml, every chart of corpus/gen_charts.py): <log expr="X<nn>"> in onexit, "E<nn>" in
+   onentry (nn: a number per state, increasing in document order), "T<kk>" in transitions */
 static int stub_log(const uscxml_ctx *ctx, const char *label, const char *expr) {
   g_calls = 1;
-#ifdef ORDER_LOG
+#if D_ORDER_LOG && defined(SPEC_ANS) /* part B only: part A proves nothing but the loop invariant and must stay loop-free here */
   if (expr != 0 && (expr[0] == 'X' || expr[0] == 'E' || expr[0] == 'T')) {
-    int n = expr[0] == 'T' ? 0 : (expr[1] - '0') * 10 + (expr[2] - '0');
+    int n = (expr[1] - '0') * 10 + (expr[2] - '0');
+    if (expr[0] == 'T') {
+      int t = -1;
+      for (int u = 0; u < D_T; u++) if (d_tlognum[u] == n) t = u;
+      __CPROVER_assert(g_phase <= 2, "C04.order: transition content runs after all exits and before all entries");
+      if (t >= 0) {
+        __CPROVER_assert(!sp_bit(G.tl, t), "C04.content: the content of a transition runs at most once per step");
+        __CPROVER_assert(g_phase != 2 || G.last_tsrc < d_tsrc[t] || sp_desc(G.last_tsrc, d_tsrc[t]), "C04.order: transition content runs in document order of the transitions' source states");
+        G.tl[t >> 3] = (unsigned char)(G.tl[t >> 3] | (1u << (t & 7)));
+        G.last_tsrc = d_tsrc[t];
+      }
+      g_phase = 2;
+      return USCXML_ERR_OK;
+    }
+    int i = -1;
+    for (int j = 1; j < D_N; j++) if (d_lognum[j] == n) i = j;
     if (expr[0] == 'X') {
       __CPROVER_assert(g_phase <= 1, "C04.order: states are exited before transition content runs and before states are entered");
       __CPROVER_assert(g_phase != 1 || n < g_last, "C04.order: states are exited in reverse document order");
+      if (i >= 0) {
+        __CPROVER_assert(!sp_bit(G.xl, i), "C04.content: the onexit content of a state runs at most once per step");
+        G.xl[i >> 3] = (unsigned char)(G.xl[i >> 3] | (1u << (i & 7)));
+      }
       g_phase = 1; g_last = n;
-    } else if (expr[0] == 'T') {
-      __CPROVER_assert(g_phase <= 2, "C04.order: transition content runs after all exits and before all entries");
-      g_phase = 2;
     } else {
       __CPROVER_assert(g_phase != 3 || n > g_last, "C04.order: states are entered in document order");
+      if (i >= 0) {
+        __CPROVER_assert(!sp_bit(G.el, i), "C04.content: the onentry content of a state runs at most once per step");
+        G.el[i >> 3] = (unsigned char)(G.el[i >> 3] | (1u << (i & 7)));
+      }
       g_phase = 3; g_last = n;
     }
     return USCXML_ERR_OK;
@@ -203,6 +227,9 @@ static void setup_ctx(void) {
   g_calls = 0; g_int_last_null = 0; g_ext_calls = 0; g_last_ext_null = 0; g_foreach_budget = 2; g_phase = 0; g_last = 0;
   for (int k = 0; k < USCXML_MAX_NR_STATES_BYTES; k++) G.done[k] = 0;
   for (int t = 0; t <= D_T; t++) { G.ans_m[t] = nondet_int(); G.ans_c[t] = nondet_int(); }
+  for (int k = 0; k < USCXML_MAX_NR_STATES_BYTES; k++) { G.xl[k] = 0; G.el[k] = 0; }
+  for (int k = 0; k < USCXML_MAX_NR_TRANS_BYTES; k++) G.tl[k] = 0;
+  G.last_tsrc = 0;
 }
 
 int wit_ans_m[D_T + 1], wit_ans_c[D_T + 1], wit_sel[D_T + 1];
@@ -324,8 +351,27 @@ void h_step(void) {
       for (int t = 0; t < D_T; t++) { wit_sel[t] = sel[t]; if (sel[t]) any = 1; }
       __CPROVER_assert(any, "C04.select: a step returns OK only if the optimal enabled transition set is not empty");
     }
-    sps_config(g_pre.config, g_pre.history, sel, pristine, wit_spec_config);
+    unsigned char sx[USCXML_MAX_NR_STATES_BYTES], se[USCXML_MAX_NR_STATES_BYTES];
+    sps_config(g_pre.config, g_pre.history, sel, pristine, wit_spec_config, sx, se);
     __CPROVER_assert(bytes_eq(g_ctx.config, wit_spec_config), "C04.step: the configuration after the step is the one the microstep algorithm of the Recommendation yields (optimal enabled transition set, exit set, entry set with history and default completion)");
+#if D_ORDER_LOG
+    /* executed content: with a log callback present, the handlers that ran are exactly those of the exit set, the
+       optimal transition set and the entry set */
+    if (g_pre.exec_content_log != 0) {
+      __CPROVER_assert(0, "CANARY executed-content clause reached");
+      for (int i = 1; i < D_N; i++) {
+        if (d_lognum[i] < 0) continue;
+        wit_row = i;
+        __CPROVER_assert(sp_bit(G.xl, i) == sp_bit(sx, i), "C04.content: onexit content runs exactly for the states of the exit set");
+        __CPROVER_assert(sp_bit(G.el, i) == sp_bit(se, i), "C04.content: onentry content runs exactly for the states that are entered");
+      }
+      for (int t = 0; t < D_T; t++) {
+        if (d_tlognum[t] < 0) continue;
+        wit_row = t;
+        __CPROVER_assert(sp_bit(G.tl, t) == sel[t], "C04.content: transition content runs exactly for the transitions of the optimal enabled transition set");
+      }
+    }
+#endif
   }
 #endif
 
